@@ -544,3 +544,62 @@ def o6(prog):
                              "msg": "integer comparison disagrees with mathematical order: %s (s = held signed, u = held unsigned)" % bad, "detail": None})
     inst.append(("O6:domain", {"representatives": len(vals), "evaluations": n}))
     return inst, findings
+
+
+# ---------------------------------------------------------------------------
+# O7: units compare by identity of the libdw unit, not by a section offset alone
+
+def o7(prog):
+    """value_cu::cmp / value_abbrev_unit::cmp interpreted on abstract units: two Dwarf files (a file and its dwz alt file) both have a
+    unit at offset 0, so only the identity of the Dwarf_CU distinguishes them.  Equal must mean: the same unit."""
+    from cxxobj import CxxEvaluator, Obj, Sym
+    inst, findings = [], []
+    cmp_enum = None
+    for e in prog.enums.values():
+        if e["q"] == "cmp_result":
+            cmp_enum = {c["n"]: ("enum", c["n"], c["v"]) for c in e["consts"]}
+    if cmp_enum is None:
+        raise Broken("enum cmp_result vanished")
+
+    def three(ev, o, a):
+        x, y = a
+        if hasattr(x, "addr") or x is None or hasattr(y, "addr"):
+            x, y = (0 if x is None else x.addr), (0 if y is None else y.addr)
+        return cmp_enum["less"] if x < y else (cmp_enum["greater"] if x > y else cmp_enum["equal"])
+
+    class CU:
+        def __init__(self, dwarf, off, serial):
+            self.dwarf, self.off, self.addr = dwarf, off, 0x5000 + serial * 0x40
+
+        def __repr__(self):
+            return "unit %#x of Dwarf %s" % (self.off, self.dwarf)
+    cus = [CU("main", 0, 0), CU("alt", 0, 1), CU("main", 0x20, 2), CU("alt", 0x20, 3)]
+    for cls in ("value_cu", "value_abbrev_unit"):
+        f = prog.func_opt(cls + "::cmp")
+        if f is None:
+            raise Broken("anchor %s::cmp vanished" % cls)
+        hooks = {"zw_value::as<%s>" % cls: lambda ev, o, a: a[0] if isinstance(a[0], Obj) else None, "compare<*": three}
+        ev = CxxEvaluator(hooks, {}, prog=prog)
+        vals = []
+        for i, cu in enumerate(cus + cus[:1]):
+            v = Obj(cls)
+            v.m_cu, v.m_offset, v.m_dwctx, v.m_pos = cu, cu.off, Sym.of("dwctx"), i
+            v.m_doneness = ("enum", "cooked", 0)
+            vals.append(v)
+        key = "O7:%s::cmp" % cls
+        bad = None
+        for a in vals:
+            for b in vals:
+                r = ev.call(f, a, [b])
+                if not (isinstance(r, tuple) and r[0] == "enum"):
+                    raise Broken("%s::cmp did not evaluate to a cmp_result" % cls)
+                back = ev.call(f, b, [a])
+                same = a.m_cu is b.m_cu
+                if (r[1] == "equal") != same and bad is None:
+                    bad = "%s::cmp answers `%s` for %r and %r: units must compare equal exactly when they are the same unit (a file and its alt file both have a unit at offset 0)" % (cls, r[1], a.m_cu, b.m_cu)
+                elif {"less": "greater", "greater": "less", "equal": "equal"}.get(r[1]) != back[1] and bad is None:
+                    bad = "%s::cmp is not antisymmetric on %r and %r" % (cls, a.m_cu, b.m_cu)
+        inst.append((key, {"abstract_units": len(cus), "pairs": len(vals) ** 2}))
+        if bad:
+            findings.append({"key": key, "where": "libzwerg/" + f["l"], "msg": bad, "detail": None})
+    return inst, findings
